@@ -50,6 +50,9 @@ def plan(tier, seed):
 # ------------------------------------------------------------------ instance generation (on the dictref tree)
 def good_value(node, rnd):
     if node["enum"]:
+        if node["type"] == "MULTIPLEVALUESTRING" and len(node["enum"]) > 1 and rnd.random() < 0.5:
+            # MultipleValueString: several of the enumerated values, separated by single spaces
+            return " ".join(rnd.sample(list(node["enum"]), rnd.randrange(2, min(4, len(node["enum"])) + 1)))
         return rnd.choice(node["enum"])
     t = node["type"]
     cands = [GOOD.get(t)] + GOOD_ALT.get(t, [])
@@ -91,6 +94,15 @@ def gen_members(members, rnd, density, first_always):
             items = [gen_members(n["members"], rnd, density, True) for _ in range(rnd.randrange(1, 4))]
             out.append([n, items])
     return out
+
+
+def walk_values(inst):
+    for node, v in inst:
+        if isinstance(v, list):
+            for it in v:
+                yield from walk_values(it)
+        else:
+            yield node, v
 
 
 def has_group(inst):
@@ -271,6 +283,8 @@ def judge_instance(acc, dname, dic, schema, mt, msgdef, inst, label, cid, npos, 
                 schema.validate(m)
             except Exception as e:
                 why = f"{type(e).__name__}: {e}"[:300]
+            if v == "reject" and "value expected to be one of" in why and any(isinstance(x, str) and " " in x and n_["type"] == "MULTIPLEVALUESTRING" for n_, x in walk_values(inst)):
+                key = "valid-instance-rejected:multiple-value-enumeration"
             acc.violation(key, f"{dname} {msgdef['name']} ({label}, header={header}): {why}", {"dict": dname, "msgtype": mt, "instance": show_inst(inst)}, cid)
             return
     if rnd.random() < 0.15:
